@@ -386,8 +386,14 @@ func unop(instr *ssa.UnOp, x value) value {
 			if p == nil {
 				panic(targetPanic{runtimeErr("invalid memory address or nil pointer dereference")})
 			}
+			if mon.on {
+				monRead(p, curFrame)
+			}
 			return load(mustDeref(instr.X.Type()), p)
 		case symaddr:
+			if mon.on && len(p.base) > 0 {
+				monRead(&p.base[0], curFrame)
+			}
 			return loadSymAddr(mustDeref(instr.X.Type()), p)
 		}
 		panic(fmt.Sprintf("unop *: unexpected %T", x))
@@ -585,6 +591,9 @@ func conv(t_dst, t_src types.Type, x value) value {
 		theEx.unsupported("conversion of opaque decimal bytes")
 	case []value:
 		if s, ok := ut_src.(*types.Slice); ok && isString(ut_dst) {
+			if mon.on && len(xv) > 0 {
+				monRead(&xv[0], curFrame)
+			}
 			switch s.Elem().Underlying().(*types.Basic).Kind() {
 			case types.Byte:
 				return normStr(xv)
@@ -776,6 +785,7 @@ func storeSymAddr(t types.Type, p symaddr, v value) {
 func lookup(instr *ssa.Lookup, x, idx value) value {
 	switch x := x.(type) {
 	case *omap:
+		monMap(x, false, curFrame)
 		v, ok := x.lookup(idx)
 		if !ok {
 			v = zero(instr.X.Type().Underlying().(*types.Map).Elem())
@@ -897,6 +907,10 @@ func callBuiltin(caller *frame, callpos token.Pos, fn *ssa.Builtin, args []value
 		if len(dst) < n {
 			n = len(dst)
 		}
+		if mon.on && n > 0 {
+			monRead(&src[0], caller)
+			monWrite(&dst[0], nil, caller)
+		}
 		// handle overlap like memmove
 		tmp := make([]value, n)
 		for i := 0; i < n; i++ {
@@ -912,6 +926,7 @@ func callBuiltin(caller *frame, callpos token.Pos, fn *ssa.Builtin, args []value
 		return nil
 
 	case "delete":
+		monMap(args[0].(*omap), true, caller)
 		args[0].(*omap).delete(args[1])
 		return nil
 
@@ -1013,8 +1028,18 @@ func appendCells(s []value, add []value, tElt types.Type) []value {
 		return s
 	}
 	n := len(s)
+	if mon.on && len(add) > 0 {
+		monRead(&add[0], curFrame)
+	}
 	if n+len(add) <= cap(s) {
 		r := s[:n+len(add)]
+		if mon.on {
+			full := s[:cap(s)]
+			if mon.setupArrays[&full[0]] && !mon.anyHeld() {
+				mon.sharedWr = append(mon.sharedWr, monAccess{true, curFrame.fn.String(), "spare capacity of a slice built at start-up (shared table)", nil})
+			}
+			monWrite(&r[n], nil, curFrame)
+		}
 		for i, v := range add {
 			setCell(&r[n+i], copyVal(v))
 		}
@@ -1022,6 +1047,12 @@ func appendCells(s []value, add []value, tElt types.Type) []value {
 	}
 	newCap := growCap(cap(s), n+len(add), tElt)
 	r := make([]value, newCap)
+	if !trailOn && newCap > 0 {
+		mon.setupArrays[&r[0]] = true
+	}
+	if mon.on && n > 0 {
+		monRead(&s[0], curFrame)
+	}
 	copy(r, s)
 	for i, v := range add {
 		r[n+i] = copyVal(v)
